@@ -377,7 +377,7 @@ pub fn run(args: &[String]) {
                 continue;
             }
             let at = rng.below(n as u64 + 1) as usize;
-            let ch = ["§", "`", "\\", "№", "?", "¤", "\u{7f}", "€"][rng.below(8) as usize];
+            let ch = ["§", "`", "\\", "№", "?", "¤", "\u{7f}", "€", "\0", "\u{1}"][rng.below(10) as usize];
             let mut s2 = String::new();
             for i in 0..n {
                 if i == at {
@@ -393,7 +393,7 @@ pub fn run(args: &[String]) {
     }
     // (d) fragment soups as in the lex family
     for _ in 0..arg_u64(args, "--random", 0) {
-        let frags: &[&str] = &["x", " ", "\n", "1", "1.", ".5", "e", "ns", "im", "(", ")", "[", "]", "{", "}", ";", ",", "=", "+", "-", "*", "/", "<", ">", "!", "&", "|", "^", "%", "~", ":", "@", "$1", "\"01\"", "'ab'", "int", "float", "qubit", "gate", "def", "if", "else", "for", "in", "while", "return", "measure", "reset", "let", "const", "delay", "box", "array", "complex", "bit", "ctrl", "inv", "pow", "negctrl", "gphase", "switch", "case", "default", "include", "extern", "input", "output", "barrier", "break", "end", "creg", "qreg", "OPENQASM 3;", "pragma x\n", "// c\n", "/* c */", "->", "é", "😀", "#"];
+        let frags: &[&str] = &["x", " ", "\n", "1", "1.", ".5", "e", "ns", "im", "(", ")", "[", "]", "{", "}", ";", ",", "=", "+", "-", "*", "/", "<", ">", "!", "&", "|", "^", "%", "~", ":", "@", "$1", "\"01\"", "'ab'", "int", "float", "qubit", "gate", "def", "if", "else", "for", "in", "while", "return", "measure", "reset", "let", "const", "delay", "box", "array", "complex", "bit", "ctrl", "inv", "pow", "negctrl", "gphase", "switch", "case", "default", "include", "extern", "input", "output", "barrier", "break", "end", "creg", "qreg", "OPENQASM 3;", "pragma x\n", "// c\n", "/* c */", "->", "é", "😀", "#", "\0", "\u{7f}", "\u{feff}", "\u{200b}", "\r", "\t", "\u{85}"];
         let n = 1 + rng.below(10);
         let mut s = String::new();
         for _ in 0..n {
